@@ -5,12 +5,18 @@ import AsyncsshModel.Model.Lifecycle
 -/
 namespace AsyncsshModel.Lifecycle
 
-/-- acceptor for `made · (anything but made / lost)* · lost?` : state 0 fresh, 1 live, 2 over -/
+/-- acceptor for `made · x* · lost?` where `x` is anything but `made` / `lost` and `eof` occurs at most once:
+    state 0 fresh, 1 live, 3 live with `eof_received` already delivered, 2 over -/
 def dfa : Nat → Cb → Option Nat
   | 0, .made => some 1
   | 1, .made => none
   | 1, .lost _ => some 2
+  | 1, .eof => some 3
   | 1, _ => some 1
+  | 3, .made => none
+  | 3, .lost _ => some 2
+  | 3, .eof => none
+  | 3, _ => some 3
   | _, _ => none
 
 def runDfa (tr : List Cb) : Option Nat := tr.foldl (fun st cb => st.bind (dfa · cb)) (some 0)
@@ -19,6 +25,140 @@ def runDfa (tr : List Cb) : Option Nat := tr.foldl (fun st cb => st.bind (dfa ·
 
 @[simp] theorem runDfa_snoc (tr : List Cb) (x : Cb) : runDfa (tr ++ [x]) = (runDfa tr).bind (dfa · x) := by
   simp [runDfa, List.foldl_append]
+
+theorem dfa_one {x : Cb} {st' : Nat} (h : dfa 1 x = some st') :
+    (∃ e, x = .lost e ∧ st' = 2) ∨ (x = .eof ∧ st' = 3) ∨
+    (x ≠ .made ∧ (∀ e, x ≠ .lost e) ∧ x ≠ .eof ∧ st' = 1) := by
+  cases x <;> simp [dfa] at h ⊢ <;> omega
+
+theorem dfa_three {x : Cb} {st' : Nat} (h : dfa 3 x = some st') :
+    (∃ e, x = .lost e ∧ st' = 2) ∨ (x ≠ .made ∧ (∀ e, x ≠ .lost e) ∧ x ≠ .eof ∧ st' = 3) := by
+  cases x <;> simp [dfa] at h ⊢ <;> omega
+
+theorem dfa_zero {x : Cb} {st' : Nat} (h : dfa 0 x = some st') : x = .made ∧ st' = 1 := by
+  cases x <;> simp [dfa] at h ⊢ <;> omega
+
+theorem dfa_other {st : Nat} {x : Cb} {st' : Nat} (h : dfa st x = some st') : st = 0 ∨ st = 1 ∨ st = 3 := by
+  match st with
+  | 0 => exact Or.inl rfl
+  | 1 => exact Or.inr (Or.inl rfl)
+  | 2 => simp [dfa] at h
+  | 3 => exact Or.inr (Or.inr rfl)
+  | n + 4 => simp [dfa] at h
+
+theorem foldl_dfa_none (l : List Cb) : l.foldl (fun st cb => st.bind (dfa · cb)) none = none := by
+  induction l with
+  | nil => rfl
+  | cons y r ih => simpa using ih
+
+/-- no `made`, no `lost` inside -/
+def Mid (mid : List Cb) : Prop := ∀ x ∈ mid, x ≠ .made ∧ ∀ e', x ≠ .lost e'
+
+theorem mid_cons {x : Cb} {mid : List Cb} (h1 : x ≠ .made) (h2 : ∀ e, x ≠ .lost e) (h : Mid mid) : Mid (x :: mid) := by
+  intro y hy
+  rcases List.mem_cons.mp hy with z | z
+  · subst z; exact ⟨h1, h2⟩
+  · exact h y z
+
+/-- what acceptance in state 2 means, for a run started in state `st` -/
+theorem foldl_dfa_two (l : List Cb) (st : Nat)
+    (h : l.foldl (fun st cb => st.bind (dfa · cb)) (some st) = some 2) :
+    (st = 1 → ∃ mid e, l = mid ++ [.lost e] ∧ Mid mid ∧ mid.count .eof ≤ 1) ∧
+    (st = 3 → ∃ mid e, l = mid ++ [.lost e] ∧ Mid mid ∧ mid.count .eof = 0) ∧
+    (st = 0 → ∃ mid e, l = .made :: mid ++ [.lost e] ∧ Mid mid ∧ mid.count .eof ≤ 1) ∧
+    (st = 2 → l = []) := by
+  induction l generalizing st with
+  | nil =>
+    simp at h
+    subst h
+    exact ⟨fun h => (by cases h), fun h => (by cases h), fun h => (by cases h), fun _ => rfl⟩
+  | cons x rest ih =>
+    simp only [List.foldl_cons, Option.bind_some] at h
+    cases hd : dfa st x with
+    | none => rw [hd, foldl_dfa_none] at h; cases h
+    | some st' =>
+      rw [hd] at h
+      obtain ⟨i1, i3, i0, i2⟩ := ih st' h
+      refine ⟨?_, ?_, ?_, ?_⟩
+      · intro h1; subst h1
+        rcases dfa_one hd with ⟨e, hx, hs⟩ | ⟨hx, hs⟩ | ⟨hx1, hx2, hx3, hs⟩
+        · subst hx; subst hs
+          have := i2 rfl; subst this
+          exact ⟨[], e, rfl, fun _ hy => (by cases hy), by simp⟩
+        · subst hx; subst hs
+          obtain ⟨mid, e, h1, h2, h3⟩ := i3 rfl
+          exact ⟨.eof :: mid, e, by simp [h1], mid_cons (by simp) (by simp) h2, by simp [h3]⟩
+        · subst hs
+          obtain ⟨mid, e, h1, h2, h3⟩ := i1 rfl
+          refine ⟨x :: mid, e, by simp [h1], mid_cons hx1 hx2 h2, ?_⟩
+          simp only [List.count_cons, beq_iff_eq, hx3, if_false, Nat.add_zero]; exact h3
+      · intro h3'; subst h3'
+        rcases dfa_three hd with ⟨e, hx, hs⟩ | ⟨hx1, hx2, hx3, hs⟩
+        · subst hx; subst hs
+          have := i2 rfl; subst this
+          exact ⟨[], e, rfl, fun _ hy => (by cases hy), by simp⟩
+        · subst hs
+          obtain ⟨mid, e, h1, h2, h3⟩ := i3 rfl
+          refine ⟨x :: mid, e, by simp [h1], mid_cons hx1 hx2 h2, ?_⟩
+          simp only [List.count_cons, beq_iff_eq, hx3, if_false, Nat.add_zero]; exact h3
+      · intro h0; subst h0
+        obtain ⟨hx, hs⟩ := dfa_zero hd
+        subst hx; subst hs
+        obtain ⟨mid, e, h1, h2, h3⟩ := i1 rfl
+        exact ⟨mid, e, by simp [h1], h2, h3⟩
+      · intro h2; subst h2
+        rcases dfa_other hd with y | y | y <;> cases y
+
+theorem foldl_dfa_from_two (l : List Cb) (st' : Nat)
+    (h : l.foldl (fun st cb => st.bind (dfa · cb)) (some 2) = some st') : l = [] := by
+  cases l with
+  | nil => rfl
+  | cons x rest =>
+    simp only [List.foldl_cons, Option.bind_some] at h
+    have : dfa 2 x = none := by cases x <;> rfl
+    rw [this, foldl_dfa_none] at h; cases h
+
+/-- every accepted prefix holds `eof` at most once (not at all after a start in state 3) -/
+theorem foldl_dfa_eof (l : List Cb) (st st' : Nat)
+    (h : l.foldl (fun st cb => st.bind (dfa · cb)) (some st) = some st') :
+    l.count .eof ≤ (if st = 3 then 0 else 1) := by
+  induction l generalizing st with
+  | nil => simp
+  | cons x rest ih =>
+    simp only [List.foldl_cons, Option.bind_some] at h
+    cases hd : dfa st x with
+    | none => rw [hd, foldl_dfa_none] at h; cases h
+    | some s1 =>
+      rw [hd] at h
+      have i := ih s1 h
+      rcases dfa_other hd with y | y | y
+      · subst y
+        obtain ⟨hx, hs⟩ := dfa_zero hd
+        subst hx; subst hs
+        simp only [List.count_cons, beq_iff_eq] at i ⊢
+        simp at i ⊢; exact i
+      · subst y
+        rcases dfa_one hd with ⟨e, hx, hs⟩ | ⟨hx, hs⟩ | ⟨hx1, hx2, hx3, hs⟩
+        · subst hx; subst hs
+          have := foldl_dfa_from_two rest st' h; subst this; simp
+        · subst hx; subst hs
+          simp only [List.count_cons, beq_iff_eq] at i ⊢
+          simp at i ⊢; omega
+        · subst hs
+          simp only [List.count_cons, beq_iff_eq, hx3, if_false, Nat.add_zero]
+          simpa using i
+      · subst y
+        rcases dfa_three hd with ⟨e, hx, hs⟩ | ⟨hx1, hx2, hx3, hs⟩
+        · subst hx; subst hs
+          have := foldl_dfa_from_two rest st' h; subst this; simp
+        · subst hs
+          simp only [List.count_cons, beq_iff_eq, hx3, if_false, Nat.add_zero]
+          simpa using i
+
+/-- a legal callback trace (any state of the acceptor) contains `eof` at most once -/
+theorem runDfa_eof_once (tr : List Cb) (st : Nat) (h : runDfa tr = some st) : tr.count .eof ≤ 1 := by
+  have := foldl_dfa_eof tr 0 st h
+  simpa using this
 
 /-- the unconsumed future result is the outcome of the open waiter / of a request waiter -/
 def wvOpen (w : Option WakeVal) : Bool :=
@@ -46,10 +186,11 @@ def wvReq (w : Option WakeVal) : Bool :=
 
 /-- structural invariant of one channel object -/
 structure CInv (c : Chan) : Prop where
-  trT : c.session = true → runDfa c.trace = some 1
+  trT : c.session = true → runDfa c.trace = some 1 ∨ runDfa c.trace = some 3
   trF : c.session = false → runDfa c.trace = some 0 ∨ runDfa c.trace = some 2
   ow : c.openWaiter = true →
-    c.reg = true ∧ c.stage = .waitOpen ∧ c.sendSt = .closed ∧ c.recvSt = .closed ∧ c.wakeVal = none
+    c.reg = true ∧ c.stage = .waitOpen ∧ c.sendSt = .closed ∧ c.recvSt = .closed ∧ c.wakeVal = none ∧
+      c.recvEofPending = false
   rw : c.reqWaiter = true → c.reg = true ∧ (c.stage = .waitPty ∨ c.stage = .waitReq) ∧ c.wakeVal = none
   sc : c.sendChan.isSome = true → c.reg = true
   ce : c.reg = false → c.closeEvent = true
@@ -57,10 +198,13 @@ structure CInv (c : Chan) : Prop where
   wo : c.stage = .waitOpen → runDfa c.trace = some 0 ∧ c.session = false ∧ c.reqWaiter = false
   fo : (c.fo = .start ∨ c.fo = .awaiting) →
     runDfa c.trace = some 0 ∧ c.session = false ∧ c.sendSt = .closed ∧ c.recvSt = .closed ∧
-      c.openWaiter = false ∧ c.stage = .done
+      c.openWaiter = false ∧ c.stage = .done ∧ c.recvEofPending = false
   wvO : wvOpen c.wakeVal = true → c.stage = .waitOpen
   wvR : wvReq c.wakeVal = true → c.stage = .waitPty ∨ c.stage = .waitReq
   live : c.stage ≠ .done → c.openWaiter = true ∨ c.reqWaiter = true ∨ c.wakeVal.isSome = true
+  -- `eof_received` is delivered once: after it the receive side is past `eof_pending` and no EOF is owed
+  es : runDfa c.trace = some 3 → c.recvSt ≠ .opn ∧ c.recvSt ≠ .eofPending ∧ c.recvEofPending = false
+  rep : c.recvEofPending = true → c.recvSt = .closePending ∨ c.recvSt = .closed
 
 /-- the result state of a sequenced computation satisfies `P` when both parts preserve it -/
 theorem andThen_c {P : Chan → Prop} (r : R) (f : Chan → R) (hr : P r.c) (hf : ∀ c, P c → P (f c).c) :
@@ -83,7 +227,7 @@ theorem andThen_c2 {Q P : Chan → Prop} (r : R) (f : Chan → R) (hr : Q r.c) (
 @[simp] theorem fail_c (c : Chan) (e : Exc) (a : List Act) : (R.fail c e a).c = c := rfl
 
 macro "chan_inv" h:ident "[" ds:Lean.Parser.Tactic.simpLemma,* "]" : tactic =>
-  `(tactic| (obtain ⟨h1, h2, h3, h4, h5, h6, h7, h8, h9, h10, h11, h12⟩ := $h
+  `(tactic| (obtain ⟨h1, h2, h3, h4, h5, h6, h7, h8, h9, h10, h11, h12, h13, h14⟩ := $h
              simp only [$ds,*, R.ok, R.fail, ok_c, fail_c, pre_c]
              repeat' split
              all_goals (constructor <;> (try simp only [R.ok, R.fail, ok_c, fail_c, pre_c]) <;> grind [dfa, runDfa_snoc])))
@@ -104,7 +248,7 @@ theorem writeEof_inv (c : Chan) (h : CInv c) : CInv (writeEof c).c := by
   unfold writeEof
   split
   · apply flushSendBuf_inv
-    obtain ⟨h1, h2, h3, h4, h5, h6, h7, h8, h9, h10, h11, h12⟩ := h
+    obtain ⟨h1, h2, h3, h4, h5, h6, h7, h8, h9, h10, h11, h12, h13, h14⟩ := h
     constructor <;> grind
   · exact h
 
@@ -122,11 +266,11 @@ theorem flushEofPart_inv (c : Chan) (h : CInv c) : CInv (flushEofPart c).c := by
   · split
     · split
       · apply writeEof_inv
-        obtain ⟨h1, h2, h3, h4, h5, h6, h7, h8, h9, h10, h11, h12⟩ := h
+        obtain ⟨h1, h2, h3, h4, h5, h6, h7, h8, h9, h10, h11, h12, h13, h14⟩ := h
         constructor <;> grind [dfa, runDfa_snoc]
-      · obtain ⟨h1, h2, h3, h4, h5, h6, h7, h8, h9, h10, h11, h12⟩ := h
+      · obtain ⟨h1, h2, h3, h4, h5, h6, h7, h8, h9, h10, h11, h12, h13, h14⟩ := h
         constructor <;> simp only [ok_c] <;> grind [dfa, runDfa_snoc]
-    · obtain ⟨h1, h2, h3, h4, h5, h6, h7, h8, h9, h10, h11, h12⟩ := h
+    · obtain ⟨h1, h2, h3, h4, h5, h6, h7, h8, h9, h10, h11, h12, h13, h14⟩ := h
       constructor <;> simp only [fail_c] <;> grind [dfa, runDfa_snoc]
   · exact h
 
@@ -138,7 +282,7 @@ theorem flushRecvBuf_inv (c : Chan) (h : CInv c) : CInv (flushRecvBuf c).c := by
   refine andThen_c _ _ (andThen_c _ _ ?_ flushEofPart_inv) flushClosePart_inv
   split
   · apply deliverN_inv
-    obtain ⟨h1, h2, h3, h4, h5, h6, h7, h8, h9, h10, h11, h12⟩ := h
+    obtain ⟨h1, h2, h3, h4, h5, h6, h7, h8, h9, h10, h11, h12, h13, h14⟩ := h
     constructor <;> grind
   · exact h
 
@@ -147,7 +291,7 @@ theorem acceptData_inv (c : Chan) (h : CInv c) : CInv (acceptData c).c := by
   split
   · exact h
   · split
-    · obtain ⟨h1, h2, h3, h4, h5, h6, h7, h8, h9, h10, h11, h12⟩ := h
+    · obtain ⟨h1, h2, h3, h4, h5, h6, h7, h8, h9, h10, h11, h12, h13, h14⟩ := h
       constructor <;> simp only [ok_c] <;> grind
     · exact deliverOne_inv c h
 
@@ -155,7 +299,7 @@ theorem resumeReading_inv (c : Chan) (h : CInv c) : CInv (resumeReading c).c := 
   unfold resumeReading
   split
   · apply flushRecvBuf_inv
-    obtain ⟨h1, h2, h3, h4, h5, h6, h7, h8, h9, h10, h11, h12⟩ := h
+    obtain ⟨h1, h2, h3, h4, h5, h6, h7, h8, h9, h10, h11, h12, h13, h14⟩ := h
     constructor <;> grind
   · exact h
 
@@ -166,7 +310,7 @@ theorem startReading_inv (c : Chan) (h : CInv c) : CInv (startReading c).c := by
   unfold startReading
   split
   · apply flushRecvBuf_inv
-    obtain ⟨h1, h2, h3, h4, h5, h6, h7, h8, h9, h10, h11, h12⟩ := h
+    obtain ⟨h1, h2, h3, h4, h5, h6, h7, h8, h9, h10, h11, h12, h13, h14⟩ := h
     constructor <;> grind
   · exact h
 
@@ -174,7 +318,7 @@ theorem processConnectionClose_inv (e : Exc) (c : Chan) (h : CInv c) : CInv (pro
   unfold processConnectionClose
   refine andThen_c _ _ ?_ (cleanup_inv e)
   apply closeSend_inv
-  obtain ⟨h1, h2, h3, h4, h5, h6, h7, h8, h9, h10, h11, h12⟩ := h
+  obtain ⟨h1, h2, h3, h4, h5, h6, h7, h8, h9, h10, h11, h12, h13, h14⟩ := h
   constructor <;> grind
 
 theorem processData_inv (c : Chan) (h : CInv c) : CInv (processData c).c := by
@@ -190,7 +334,7 @@ theorem processEof_inv (c : Chan) (h : CInv c) : CInv (processEof c).c := by
   split
   · exact h
   · apply flushRecvBuf_inv
-    obtain ⟨h1, h2, h3, h4, h5, h6, h7, h8, h9, h10, h11, h12⟩ := h
+    obtain ⟨h1, h2, h3, h4, h5, h6, h7, h8, h9, h10, h11, h12, h13, h14⟩ := h
     constructor <;> grind
 
 theorem closeSend_recvSt (c : Chan) : (closeSend c).c.recvSt = c.recvSt := by
@@ -205,7 +349,7 @@ theorem processClose_inv (c : Chan) (h : CInv c) : CInv (processClose c).c := by
       ⟨closeSend_inv c h, closeSend_recvSt c⟩ (fun hq => hq.1) ?_
     intro c1 ⟨hc, hr⟩
     apply flushRecvBuf_inv
-    obtain ⟨h1, h2, h3, h4, h5, h6, h7, h8, h9, h10, h11, h12⟩ := hc
+    obtain ⟨h1, h2, h3, h4, h5, h6, h7, h8, h9, h10, h11, h12, h13, h14⟩ := hc
     simp only [recvLive] at hl
     constructor <;> grind
 
@@ -215,7 +359,7 @@ theorem processAdjust_inv (n : Nat) (c : Chan) (h : CInv c) : CInv (processAdjus
   · exact h
   · rename_i hl
     apply flushSendBuf_inv
-    obtain ⟨h1, h2, h3, h4, h5, h6, h7, h8, h9, h10, h11, h12⟩ := h
+    obtain ⟨h1, h2, h3, h4, h5, h6, h7, h8, h9, h10, h11, h12, h13, h14⟩ := h
     constructor <;> grind
 
 theorem reportResponse_inv (k : ReqKind) (w r : Bool) (c : Chan) (h : CInv c) :
@@ -225,7 +369,7 @@ theorem reportResponse_inv (k : ReqKind) (w r : Bool) (c : Chan) (h : CInv c) :
   · split
     · simp only [pre_c]
       apply resumeReading_inv
-      obtain ⟨h1, h2, h3, h4, h5, h6, h7, h8, h9, h10, h11, h12⟩ := h
+      obtain ⟨h1, h2, h3, h4, h5, h6, h7, h8, h9, h10, h11, h12, h13, h14⟩ := h
       constructor <;> grind [dfa, runDfa_snoc]
     · exact h
   · exact h
@@ -233,7 +377,7 @@ theorem reportResponse_inv (k : ReqKind) (w r : Bool) (c : Chan) (h : CInv c) :
 theorem handleReq_inv (k : ReqKind) (c : Chan) (h : CInv c)
     (hs : ((c.server = true ∧ (k = .pty ∨ isStart k = true)) ∨ (c.server = false ∧ k = .exitStatus)) → c.session = true) :
     CInv (handleReq c k).1.c := by
-  obtain ⟨h1, h2, h3, h4, h5, h6, h7, h8, h9, h10, h11, h12⟩ := h
+  obtain ⟨h1, h2, h3, h4, h5, h6, h7, h8, h9, h10, h11, h12, h13, h14⟩ := h
   cases hsv : c.server <;> cases k <;> simp only [handleReq, hsv] <;> (try split) <;>
     (constructor <;> simp only [ok_c, fail_c] <;> grind [dfa, runDfa_snoc, isStart])
 
@@ -255,7 +399,7 @@ theorem processResponse_inv (ok : Bool) (c : Chan) (h : CInv c) : CInv (processR
   chan_inv h [processResponse]
 
 theorem processOpenConf_inv (sc win : Nat) (c : Chan) (h : CInv c) : CInv (processOpenConf c sc win).c := by
-  obtain ⟨h1, h2, h3, h4, h5, h6, h7, h8, h9, h10, h11, h12⟩ := h
+  obtain ⟨h1, h2, h3, h4, h5, h6, h7, h8, h9, h10, h11, h12, h13, h14⟩ := h
   simp only [processOpenConf]
   split
   · constructor <;> simp only [fail_c] <;> grind
@@ -269,7 +413,7 @@ theorem write_inv (c : Chan) (h : CInv c) : CInv (write c).c := by
   split
   · exact h
   · apply flushSendBuf_inv
-    obtain ⟨h1, h2, h3, h4, h5, h6, h7, h8, h9, h10, h11, h12⟩ := h
+    obtain ⟨h1, h2, h3, h4, h5, h6, h7, h8, h9, h10, h11, h12, h13, h14⟩ := h
     constructor <;> grind
 
 theorem abort_inv (c : Chan) (h : CInv c) : CInv (abort c).c := by
@@ -288,7 +432,7 @@ theorem close_inv (c : Chan) (h : CInv c) : CInv (close c).c := by
   refine andThen_c _ _ ?_ ?_
   · split
     · apply flushSendBuf_inv
-      obtain ⟨h1, h2, h3, h4, h5, h6, h7, h8, h9, h10, h11, h12⟩ := h
+      obtain ⟨h1, h2, h3, h4, h5, h6, h7, h8, h9, h10, h11, h12, h13, h14⟩ := h
       constructor <;> grind
     · exact h
   · intro c hc
@@ -303,7 +447,7 @@ theorem exit_inv (c : Chan) (h : CInv c) : CInv (exit c).c := by
   · exact h
 
 theorem waitClosed_inv (c : Chan) (h : CInv c) : CInv (waitClosed c) := by
-  obtain ⟨h1, h2, h3, h4, h5, h6, h7, h8, h9, h10, h11, h12⟩ := h
+  obtain ⟨h1, h2, h3, h4, h5, h6, h7, h8, h9, h10, h11, h12, h13, h14⟩ := h
   unfold waitClosed
   split <;> (constructor <;> grind)
 
